@@ -432,6 +432,34 @@ Proof.
   apply nth_error_In in H. apply versions_members in H. tauto.
 Qed.
 
+(* rows of key k whose end equals the transaction id of the i-th version: exactly the (i-1)-th *)
+Lemma chain_pred_char t k i r :
+  pk_unique t -> chain_ok t -> nth_error (versions t k) i = Some r ->
+  forall x, In x t -> vkey x = k ->
+    (sql_eq (vend x) (Some (vtx r)) = true <->
+     exists j, nth_error (versions t k) j = Some x /\ i = S j).
+Proof.
+  intros U C H x Hx Hxk.
+  pose proof (versions_ssorted t k U) as Srt.
+  assert (Hxv : In x (versions t k)) by (apply versions_members; auto).
+  apply In_nth_error in Hxv as [j Hj].
+  rewrite (C x Hx), Hxk, (min_above_position t k U j x Hj).
+  split.
+  - intro Hs. apply sql_eq_some in Hs as [y [Hy1 Hy2]]. inversion Hy2; subst y.
+    destruct (nth_error (versions t k) (S j)) as [n|] eqn:En; [|discriminate].
+    simpl in Hy1. inversion Hy1 as [Hy]. exists j. split; [exact Hj|].
+    eapply ssorted_nth_tx_inj; [exact Srt | exact H | exact En | congruence].
+  - intros [j' [Hj' ->]].
+    assert (j' = j) by (eapply ssorted_nth_tx_inj; [exact Srt | exact Hj' | exact Hj | reflexivity]).
+    subst j'. rewrite H. simpl. apply Z.eqb_refl.
+Qed.
+
+Lemma nth_error_pred {A} (l : list A) j r : nth_error l (S j) = Some r -> exists p, nth_error l j = Some p.
+Proof.
+  intro H. destruct (nth_error l j) eqn:Ej; [eauto|].
+  apply nth_error_None in Ej. assert (nth_error l (S j) = None) by (apply nth_error_None; lia). congruence.
+Qed.
+
 Theorem prev_V_position t k i r :
   pk_unique t -> chain_ok t -> nth_error (versions t k) i = Some r ->
   prev_V t r = match i with O => None | S j => nth_error (versions t k) j end.
@@ -439,34 +467,14 @@ Proof.
   intros U C H. assert (Hin : In r t /\ vkey r = k).
   { apply nth_error_In in H. apply versions_members in H. exact H. }
   destruct Hin as [Hin Hk]. unfold prev_V. rewrite Hk.
-  pose proof (versions_ssorted t k U) as Srt.
-  (* characterise the rows x of key k whose end equals vtx r *)
-  assert (Hchar : forall x, In x t -> vkey x = k ->
-            (sql_eq (vend x) (Some (vtx r)) = true <->
-             exists j, nth_error (versions t k) j = Some x /\ i = S j)).
-  { intros x Hx Hxk.
-    assert (Hxv : In x (versions t k)) by (apply versions_members; auto).
-    apply In_nth_error in Hxv as [j Hj].
-    rewrite (C x Hx), Hxk, (min_above_position t k U j x Hj).
-    split.
-    - intro Hs. apply sql_eq_some in Hs as [y [Hy1 Hy2]]. inversion Hy2; subst y.
-      destruct (nth_error (versions t k) (S j)) as [n|] eqn:En; [|discriminate].
-      simpl in Hy1. inversion Hy1 as [Hy]. exists j. split; [exact Hj|].
-      eapply ssorted_nth_tx_inj; [exact Srt | exact H | exact En | congruence].
-    - intros [j' [Hj' ->]].
-      assert (j' = j) by (eapply ssorted_nth_tx_inj; [exact Srt | exact Hj' | exact Hj | reflexivity]).
-      subst j'. rewrite H. simpl. apply Z.eqb_refl. }
+  pose proof (chain_pred_char t k i r U C H) as Hchar.
   destruct i as [|j].
   - apply find_none_iff. intros x Hx.
     destruct (same_key k x) eqn:Ek; [|reflexivity]. simpl.
     apply same_key_eq in Ek.
     destruct (sql_eq (vend x) (Some (vtx r))) eqn:Es; [|reflexivity].
     apply (Hchar x Hx Ek) in Es as [j [_ Hj]]. discriminate.
-  - assert (Hj : exists p, nth_error (versions t k) j = Some p).
-    { destruct (nth_error (versions t k) j) eqn:Ej; [eauto|].
-      apply nth_error_None in Ej.
-      assert (nth_error (versions t k) (S j) = None) by (apply nth_error_None; lia). congruence. }
-    destruct Hj as [p Hp]. rewrite Hp.
+  - destruct (nth_error_pred _ _ _ H) as [p Hp]. rewrite Hp.
     assert (Hpin : In p t /\ vkey p = k).
     { apply nth_error_In in Hp. apply versions_members in Hp. exact Hp. }
     destruct Hpin as [Hpin Hpk].
@@ -475,6 +483,21 @@ Proof.
       apply (Hchar p Hpin Hpk). exists j. auto.
     + intros x Hx Hp'. apply andb_true_iff in Hp' as [P1 P2]. apply same_key_eq in P1.
       apply (Hchar x Hx P1) in P2 as [j' [Hj' Hij]]. inversion Hij; subst j'. congruence.
+Qed.
+
+Lemma pk_unique_nodup t : pk_unique t -> NoDup t.
+Proof. unfold pk_unique. apply NoDup_map_inv. Qed.
+
+Lemma filter_unique {A} (p : A -> bool) (l : list A) (n : A) :
+  NoDup l -> In n l -> p n = true -> (forall x, In x l -> p x = true -> x = n) -> filter p l = [n].
+Proof.
+  induction l as [|a l IH]; simpl; intros ND Hin Hp Hu; [contradiction|].
+  inversion ND as [|? ? Hnotin ND']; subst.
+  destruct (p a) eqn:E.
+  - assert (a = n) by (apply Hu; auto). subst a. f_equal.
+    apply filter_none. intros x Hx. destruct (p x) eqn:Ex; [|reflexivity].
+    assert (x = n) by (apply Hu; auto). subst x. contradiction.
+  - destruct Hin as [->|Hin]; [congruence|]. apply IH; auto.
 Qed.
 
 Lemma chain_okb_spec t : chain_okb t = true <-> chain_ok t.
